@@ -95,7 +95,9 @@ static size_t build(char *buf, size_t cap, int shape, int id, int fill, rtosc_ar
     case 0: snprintf(addr, sizeof addr, "/%02x", id & 0xff); a = addr; t = ""; break;
     case 1: t = "i"; args_out[0].i = id; break;
     case 2: t = "is"; args_out[0].i = id; args_out[1].s = strbuf; break;
-    default: t = "ib"; args_out[0].i = id; args_out[1].b.len = fill; args_out[1].b.data = (uint8_t *)strbuf; break;
+    case 3: t = "ib"; args_out[0].i = id; args_out[1].b.len = fill; args_out[1].b.data = (uint8_t *)strbuf; break;
+    case 4: snprintf(addr, sizeof addr, "/%02x", id & 0xff); a = addr; t = (id & 1) ? "TFNI" : "F"; break;                 // tags without values only
+    default: t = "ihd"; args_out[0].i = id; args_out[1].h = 0x0102030405060708LL * id; args_out[2].d = id * 0.5; break;       // 8-byte values
     }
     *addr_out = a; *types_out = t;
     return rtosc_amessage(buf, cap, a, t, args_out);
@@ -226,7 +228,8 @@ struct LinkWorld : World {
             else if (target == 12) { o.a[1] = 1; o.a[2] = 0; }
             else if (pr.chance(0.5) || target < 20) { o.a[1] = 2; o.a[2] = (target - 16) + (int)pr.below(4); if (target == 16) o.a[2] = (int)pr.below(4); }   // string: 16 + 4*floor(L/4)
             else { o.a[1] = 3; int pad = target - 16; o.a[2] = pad ? pad - (int)pr.below(4) : 0; if (o.a[2] < 0) o.a[2] = 0; }                                  // blob: 16 + pad4(L)
-            if (o.a[1] == 0 && o.kind == W_ARRAY) o.kind = W_WRITE;
+            if (pr.chance(0.12)) { o.a[1] = 4 + (int64_t)pr.below(2); o.a[2] = 0; }
+            if ((o.a[1] == 0 || o.a[1] == 4) && o.kind == W_ARRAY) o.kind = W_WRITE;
             w.push_back(o);
         }
         for (int i = 0; i < nr; i++) {
@@ -264,17 +267,17 @@ struct LinkWorld : World {
         std::vector<char> last_read; bool peak_bad = false; std::string peak_detail;
         uint64_t n_over = 0, n_rawover = 0, emptied = 0;
 
-        struct WItem { Op op; int msg; const char *addr, *types; rtosc_arg_t args[2]; std::vector<char> str; };
+        struct WItem { Op op; int msg; const char *addr, *types; rtosc_arg_t args[3]; std::vector<char> str; };
         std::vector<WItem> items(wops.size());
         for (size_t i = 0; i < wops.size(); i++) {
             WItem &it = items[i]; it.op = wops[i]; it.msg = -1;
             if (it.op.kind > W_RAW) continue;
-            int shape_k = (int)(((it.op.a[1] % 4) + 4) % 4), fill = (int)std::max<int64_t>(0, std::min<int64_t>(it.op.a[2], 200));
-            if (shape_k < 2) fill = 0;
+            int shape_k = (int)(((it.op.a[1] % 6) + 6) % 6), fill = (int)std::max<int64_t>(0, std::min<int64_t>(it.op.a[2], 200));
+            if (shape_k < 2 || shape_k > 3) fill = 0;
             it.str.assign(fill + 1, 0);
             char buf[512];
             size_t len = build(buf, sizeof buf, shape_k, (int)it.op.a[0], fill, it.args, &it.addr, &it.types, it.str.data());
-            if (shape_k == 0) { it.str.assign(it.addr, it.addr + strlen(it.addr) + 1); it.addr = nullptr; }   // addr buffer is static: keep a copy
+            if (shape_k == 0 || shape_k == 4) { it.str.assign(it.addr, it.addr + strlen(it.addr) + 1); it.addr = nullptr; }   // addr buffer is static: keep a copy
             Msg m; m.id = (int)it.op.a[0]; m.bytes.assign(buf, buf + len);
             m.enc_len = len <= maxmsg ? len : 0;      // write/writeArray: encoder refuses; raw_write: the property demands a whole drop
             if (len > maxmsg) { if (it.op.kind == W_RAW) n_rawover++; else n_over++; }
@@ -297,7 +300,9 @@ struct LinkWorld : World {
                     if (!*it.types) link->write(addr, "");
                     else if (!strcmp(it.types, "i")) link->write(addr, "i", it.args[0].i);
                     else if (!strcmp(it.types, "is")) link->write(addr, "is", it.args[0].i, it.args[1].s);
-                    else link->write(addr, "ib", it.args[0].i, it.args[1].b.len, it.args[1].b.data);
+                    else if (!strcmp(it.types, "ib")) link->write(addr, "ib", it.args[0].i, it.args[1].b.len, it.args[1].b.data);
+                    else if (!strcmp(it.types, "ihd")) link->write(addr, "ihd", it.args[0].i, it.args[1].h, it.args[2].d);
+                    else link->write(addr, it.types);
                 } else if (it.op.kind == W_ARRAY) link->writeArray(addr, it.types, it.args);
                 else link->raw_write(msgs[it.msg].bytes.data());
                 g_in_api[0] = false;
